@@ -28,7 +28,7 @@ stored CRC equal to the CRC-32 of bytes `[8, 24 + payload)`. -/
 theorem C04_accept_criteria (m : Nat) (buf : Bytes) (n : Nat) :
     (cfgPy m).step buf = .emit n ↔
       HDR ≤ buf.length ∧ byteAt buf 0 = 0x2E ∧ byteAt buf 1 = 0x31 ∧ u16le buf 2 = 0 ∧
-      u32le buf 20 ≤ m ∧ n = HDR + u32le buf 20 ∧ n ≤ buf.length ∧ u32le buf 20 ≤ 16777216 ∧
+      u32le buf 16 ≤ m ∧ n = HDR + u32le buf 16 ∧ n ≤ buf.length ∧ u32le buf 16 ≤ 16777216 ∧
       (crc32 0#32 ((buf.take n).drop 8)).toNat = u32le buf 4 := by
   rw [cfgPy_step, pyHeaderOk_take]
   unfold pyCrcOk SYNC0 SYNC1 MAX_EXPECTED
@@ -77,7 +77,7 @@ header (payload within the maximum) whose message is still incomplete — strict
 maximum-size message. -/
 theorem C04_buffer_bound (m : Nat) (chunks : List Bytes) :
     let b := (pyFeed m PyDec.init chunks).2.buf
-    b.length < HDR ∨ (pyHeaderOk m (b.take HDR) = true ∧ u32le b 20 ≤ m ∧ b.length < HDR + u32le b 20) := by
+    b.length < HDR ∨ (pyHeaderOk m (b.take HDR) = true ∧ u32le b 16 ≤ m ∧ b.length < HDR + u32le b 16) := by
   intro b
   have hb : b = ((cfgPy m).run chunks.flatten 0).rest := by
     show (pyFeed m PyDec.init chunks).2.buf = _
